@@ -843,7 +843,7 @@ def check_cut(world, pub, k, memo):
     return hits + rh
 
 
-def run_history(case, crash_points=True, want=('c09', 'c10', 'c11'), inject=None):
+def run_history(case, crash_points=True, want=('c09', 'c10', 'c11'), inject=None, cell_hook=None):
     """Execute a case. Returns dict: hits {prop: [(sig, what)]}, obs, stats, error."""
     hits = {'c09': [], 'c10': [], 'c11': []}
     stats = {'cycles': 0, 'skipped_cycles': 0, 'restarts': 0, 'cuts': 0, 'cut_restarts': 0, 'pub_writes': 0,
@@ -883,6 +883,8 @@ def run_history(case, crash_points=True, want=('c09', 'c10', 'c11'), inject=None
                     w.left_behind = {(k[1], k[2]) for k in taint if k[0] == 'entry'}
                     pub = w._record_pub('reschedule', w.m.reschedule)
                     pub['race'] = race
+                    if cell_hook is not None:
+                        cell_hook(w, 'after-cycle')
                     ent = placement_entries(w.b.d)
                     hits['c09'] += published_diff(ent, w.model_view(), set(w.m.servers), 'after-cycle',
                                                   race=race, taint=taint)
